@@ -54,6 +54,7 @@ type Loaded struct {
 	OverlayRealPath map[string]string // virtual -> real
 	buildMu         sync.Mutex
 	AllPkgs         map[string]*packages.Package
+	NativeImports   map[string][2]string // file -> (import path, replacement) applied in native replay builds only
 	instrOnce       sync.Once
 	builtPkgs       sync.Map
 	instr           *Instrumented
@@ -110,6 +111,9 @@ func Load(repo, verif string, prop string) (*Loaded, error) {
 		if err := addOverlay(filepath.Join(repo, "zzverifstubs", filepath.Base(m)), m); err != nil {
 			return nil, err
 		}
+	}
+	if err := addOverlay(filepath.Join(repo, "zzverifos", "zzverifos.go"), filepath.Join(verif, "rt", "os", "zzverifos.go")); err != nil {
+		return nil, err
 	}
 	hroot := filepath.Join(verif, "harness", prop)
 	pkgDirs := map[string]bool{}
@@ -208,6 +212,13 @@ func Load(repo, verif string, prop string) (*Loaded, error) {
 						}
 					case "verif:init":
 						fileInits = append(fileInits, fs[1:]...)
+					case "verif:nativeimport":
+						if len(fs) >= 4 {
+							if L.NativeImports == nil {
+								L.NativeImports = map[string][2]string{}
+							}
+							L.NativeImports[filepath.Join(repo, fs[1])] = [2]string{fs[2], fs[3]}
+						}
 					case "verif:time":
 						if len(fs) >= 2 {
 							timeMode = fs[1]
